@@ -491,6 +491,9 @@ class GenericObject:
                          inst=inst, attr=attr, path=req.path, data=req.data,
                          transport=ctx.get("transport"), route=ctx.get("route"), slot=module.slot,
                          ip=module.ip)
+        inj = module.take_injection("generic")
+        if inj is not None:
+            return build_mr_reply(req.service, inj["status"], b"", inj.get("ext", ()))
         if self.replies:
             st, ext, data = self.replies.pop(0)
             return build_mr_reply(req.service, st, data, ext)
